@@ -17,7 +17,6 @@ package jobs
 import (
 	"context"
 	"errors"
-	"math"
 	"reflect"
 	"sync"
 	"time"
@@ -236,11 +235,10 @@ func (pipeline *IncrementalPipeline) sync(job *job, ctx context.Context) (int, e
 						transformTS := time.Now()
 
 						parallelisms := pipeline.transform.getParallelism()
-						if len(entities) < parallelisms {
+						if parallelisms < 1 || len(entities) < parallelisms {
 							parallelisms = 1
 						}
 
-						psize := int(math.Round(float64(len(entities)) / float64(parallelisms)))
 						workResults := make([]presult, parallelisms)
 
 						local := func(workId int, lentities []*server.Entity, wg *sync.WaitGroup) {
@@ -264,20 +262,16 @@ func (pipeline *IncrementalPipeline) sync(job *job, ctx context.Context) (int, e
 						wg.Add(parallelisms)
 
 						wid := 0
-						index := 0
 						for i := 0; i < parallelisms; i++ {
-							from := index
-							to := index + psize
-
-							if to >= len(entities) {
-								to = index + (len(entities) - index)
-							}
+							// contiguous chunks whose sizes differ by at most one: together they
+							// cover the whole batch and, as len(entities) >= parallelisms, none is empty
+							from := i * len(entities) / parallelisms
+							to := (i + 1) * len(entities) / parallelisms
 
 							chunk := make([]*server.Entity, to-from)
 							copy(chunk, entities[from:to])
 							go local(wid, chunk, &wg)
 							wid++
-							index += psize
 						}
 
 						wg.Wait()
